@@ -428,14 +428,7 @@ Proof.
   rewrite fold_set1_keys, norm1_keys, relevance_rows_keys. cbn [map In]. tauto.
 Qed.
 
-(* exactly when a non-empty table has min == max there is no instance *)
-Lemma degenerate_iff l : degenerate l = true <-> l <> [] /\ qmin l == qmax l.
-Proof.
-  unfold degenerate. destruct l as [|a t].
-  - split; [discriminate|intros [H _]; congruence].
-  - rewrite Qeq_bool_iff. split; [intros H; split; [discriminate|exact H]|intros [_ H]; exact H].
-Qed.
-
+(* exactly when a non-empty table has min == max there is no instance (degenerate_iff, QMedianProofs) *)
 Theorem caller_none lbl T : build_inst lbl T = None <->
   degenerate (map snd (relevance_rows lbl T)) = true \/ degenerate (map snd (relation_rows lbl T)) = true
   \/ degenerate (map snd (redundancy_rows lbl T)) = true.
